@@ -77,6 +77,9 @@ func c04table() []c04attr {
 		mp("S.deploy.resources.limits", []string{"cpus", "memory", "pids"}, []any{"0.5", "50M", 10}, []any{"0.1", "10M", 1}),
 		mp("S.healthcheck", []string{"interval", "timeout", "retries"}, []any{"10s", "5s", 3}, []any{"1s", "1s", 1}),
 		mp("S.logging.options", []string{"max-size", "max-file", "tag"}, []any{"10m", "3", "t"}, []any{"1m", "1", "o"}),
+		// the logging block itself: driver and options arriving from either side (same driver wherever both sides name one)
+		mp("S.logging", []string{"driver", "options"}, []any{"json-file", m("max-size", "10m")}, []any{"json-file", m("max-size", "10m")}),
+		mp("S.deploy.resources", []string{"limits", "reservations"}, []any{m("cpus", "0.5"), m("memory", "20M")}, []any{m("cpus", "0.5"), m("memory", "20M")}),
 		mp("S.deploy.update_config", []string{"parallelism", "delay", "order"}, []any{2, "10s", "stop-first"}, []any{1, "1s", "start-first"}),
 		mp("S.deploy.restart_policy", []string{"condition", "delay", "max_attempts"}, []any{"on-failure", "5s", 3}, []any{"any", "1s", 1}),
 		mp("S.storage_opt", []string{"size", "a", "b"}, []any{"1G", "1", "2"}, []any{"2G", "x", "y"}),
